@@ -123,7 +123,7 @@ def main():
     ap = argparse.ArgumentParser()
     ap.add_argument('scenario'); ap.add_argument('--steps', type=int, default=60); ap.add_argument('--splits', default='')
     ap.add_argument('--batch', action='store_true'); ap.add_argument('--log-dir', default=''); ap.add_argument('--detail', action='store_true')
-    ap.add_argument('--end-step', type=int, default=0); ap.add_argument('--end-offset', type=int, default=0); ap.add_argument('--runner-step', action='store_true'); ap.add_argument('--stateful-gen', action='store_true')
+    ap.add_argument('--end-step', type=int, default=0); ap.add_argument('--end-offset', type=int, default=0); ap.add_argument('--then-another', action='store_true'); ap.add_argument('--runner-step', action='store_true'); ap.add_argument('--stateful-gen', action='store_true')
     a = ap.parse_args()
     with contextlib.redirect_stdout(_buf), contextlib.redirect_stderr(_buf):
         cfg = load_config(a.scenario)
@@ -187,6 +187,15 @@ def main():
                 done += k
                 f, d = state_fp(rp.s, a.detail); fps.append([done, f]); details.append(d)
         stats = rp.e.reporter.get_summary_stats(rp)
+        leaked = None
+        if a.then_another:
+            # a second simulation of the same scenario, loaded and advanced in this same process: the first one's report handler
+            # must not hear of it (runs are independent of what else the process has loaded)
+            seen_before = len(cap.steps)
+            rp2 = load_simulation(cfg, gens)
+            rp2 = hive_cosim.crank(rp2, 3).runner_payload
+            if len(cap.steps) != seen_before:
+                leaked = {'handler_calls_before': seen_before, 'after_the_other_simulation_ran': len(cap.steps)}
         if a.log_dir:
             for h in rp.e.reporter.handlers:
                 h.close(rp)
@@ -202,6 +211,7 @@ def main():
             out['final']['cancelled_count'] = h.stats.cancelled_requests
     out['timeout'] = int(cfg.sim.request_cancel_time_seconds)
     out['off_shift_dispatch'] = cap.off_shift_dispatch
+    out['events_leaked'] = leaked if a.then_another else None
     out['availability_vs_clock'] = cap.availability_vs_clock
     out['two_vehicles_one_request'] = cap.two_vehicles_one_request
     out['human_drivers'] = sum(1 for v in rp.s.vehicles.values() if 'Human' in type(v.driver_state).__name__)
